@@ -5,8 +5,15 @@
               P-local counters, against PoolModel (kind 1) and against the sequential reading of the three
               clauses (kind 2).
    CRW      : occupancy counters observed inside syncx.RWMutex critical sections (kind 2 if any overlap).
-   CConst   : blockSize of pool.go against the model's (kind 1). *)
+   CConst   : blockSize of pool.go against the model's (kind 1).
+   CDeqSeq  : sequential pushHead/popHead/popTail on real poolDequeue rings (hook poolqueue_verif.go): results and
+              head / tail / slots against the Dequeue.v machine under the sequential schedule (kind 1) and against
+              the list deque (kind 2).                                         (drivers: DeqCheck.v)
+   CChainSeq: the same for real poolChains against the Chain.v machine (rings, links, size counter).
+   CDeqLin  : timed histories of concurrent rounds (one producer, k thieves) on a real ring or chain, decided by
+              Common/Hist.lin_check instantiated with the list deque (kind 2 when not linearizable). *)
 From VF Require Import Common.Base C13.PoolModel C13.PoolHist.
+From VF Require C13.Dequeue C13.DeqCheck.
 
 Inductive pstep :=
 | SPut (x : nat)
@@ -17,7 +24,11 @@ Inductive case :=
 | CPoolHist (has_new : bool) (h : phistory)
 | CPoolSeq (has_new : bool) (steps : list pstep)
 | CRW (nshards : nat) (reader_writer_overlaps writer_writer_overlaps : Z)
-| CConst (block_size : nat).
+| CConst (block_size : nat)
+| CDeqConst (dequeue_limit : Z)
+| CDeqSeq (steps : list DeqCheck.dstep)                 (* sequential calls on real poolDequeue rings *)
+| CChainSeq (steps : list DeqCheck.kstep)               (* sequential calls on real poolChains *)
+| CDeqLin (rounds : list (list DeqCheck.qop)).          (* timed histories of concurrent rounds on a real ring / chain *)
 
 (* sequential reading of the statement: held = objects currently outstanding, puts = ever put, known = ever
    returned (kept as binary integers: membership tests on unary numbers would dominate the run time) *)
@@ -67,6 +78,10 @@ Definition check_case (c : case) : nat :=
   | CRW nshards rw ww =>
       if (rw =? 0) && (ww =? 0) then (if Nat.leb 1 nshards then 0%nat else 1%nat) else 2%nat
   | CConst bs => if Nat.eqb bs blockSize then 0%nat else 1%nat
+  | CDeqConst l => if l =? Dequeue.dequeueLimit then 0%nat else 1%nat
+  | CDeqSeq steps => DeqCheck.check_dseq steps
+  | CChainSeq steps => DeqCheck.check_kseq steps
+  | CDeqLin rounds => DeqCheck.check_rounds rounds
   end.
 
 Definition mismatches (cs : list case) : list (nat * nat) := find_bad check_case cs.
